@@ -319,14 +319,41 @@ def gen_message(rng, base, kind, mid=1, long_range=(5000, 12000)):
             rng.choice(['', '\n##\n', '\n#3\n', '\n', '\n#', '\n##']))
     raise ValueError(kind)
 
+ROOT_ENDS = [4090, 4096, 4097, 4100, 4300, 5000, 8191, 8193, 9000, 16384, 16500]      # + occasionally beyond 32768
+
+def long_attrs(rng, n):
+    """about n characters of attributes for a start tag: xmlns:* declarations (what a reply echoes from its <rpc>, RFC 6241
+    4.2) and ordinary attributes whose values hold 2/3/4-byte characters (offsets in characters and in octets differ)"""
+    out, size, i = [], 0, 0
+    while size < n:
+        if i % 3 == 2:
+            a = ' a%d="%s"' % (i, ''.join(rng.choice(['\u00e9', '\u20ac', '\U0001F600', 'x', 'y', ' ', '/']) for _ in range(rng.randint(1, min(400, n - size)))))
+        else:
+            a = ' xmlns:p%03d="urn:example:module:%03d:%s"' % (i, i, rng.choice('abc'))
+        out.append(a); size += len(a); i += 1
+    return ''.join(out)
+
 def gen_xml_message(rng, base, mid):
-    """a message whose root start tag an XML reader accepts (Session._dispatch_message drops anything else)"""
-    k = rng.choice(['ascii', 'mb', 'mb', 'trail', 'look', 'big'])
+    """a message whose root start tag an XML reader accepts (Session._dispatch_message drops anything else); the root's
+    start tag may end anywhere: within the first characters or beyond 4096 / 8192 / 16384 / 32768 characters (kinds
+    longtag: a long start tag; prolog: XML declaration / long comment / white space before the root)"""
+    k = rng.choice(['ascii', 'mb', 'mb', 'trail', 'look', 'big', 'longtag', 'prolog'])
     body = _body(rng, rng.randint(0, 30), k != 'ascii')
     if k == 'look' and base == 11:
         body += rng.choice(['\n##\n', '\n#3\n', '\n#3\nabc\n##\n', '<![CDATA[x]]>', '<![CDATA[]]>]]>']) + _body(rng, 4, True)
     if k == 'big':
         body = (body + '<v>\u00e9\u20ac\U0001F600</v>') * rng.randint(150, 700)
+    if k in ('longtag', 'prolog'):
+        n = rng.choice(ROOT_ENDS) if rng.random() < 0.9 else rng.randint(32700, 33500)
+        if k == 'longtag':
+            s = '<rpc-reply message-id="%d"%s><data>%s%s</data></rpc-reply>' % (mid, long_attrs(rng, n - 28), rng.choice(MB), body)
+        else:
+            pro = rng.choice(['<?xml version="1.0" encoding="UTF-8"?>\n', '', '<?xml version="1.0"?>'])
+            fill = max(n - len(pro) - 40, 1)
+            pro += rng.choice(['<!--%s-->\n' % ''.join(rng.choice(['\u00e9', '\u4e2d', 'c', 'd', ' ', '\n', '>', '&']) for _ in range(fill)),
+                               ''.join(rng.choice(' \n\t') for _ in range(fill))])
+            s = '%s<rpc-reply message-id="%d"><data>%s%s</data></rpc-reply>' % (pro, mid, rng.choice(MB), body)
+        return s.replace(']]>]]>', ']]> ]]>') if base == 10 else s
     s = '<rpc-reply message-id="%d"><data>%s%s</data></rpc-reply>' % (mid, rng.choice(MB), body)
     if k == 'trail':
         s = rng.choice(['', ' ', '\n']) + s + rng.choice(['\n', ' \n', '\u00a0', '\u2028\n'])
